@@ -98,7 +98,7 @@ def kidsItemsC11 : List PVal → Option (List PVal)
     instance has the four fields the other translations read, in the order of the embedding of a tag
     (`embNode` / `embT`: name, attrs, children, add_ws); `prev_displayhook` (always None after construction, read only by the
     context-manager protocol) is not recorded. -/
-def mkTagC11 (name attrs : PVal) (kids : List PVal) (ws : PVal) : PyM PVal :=
+def mkTagC11 (name : PVal) (kids : List PVal) (ws attrs : PVal) : PyM PVal :=
   match ws with
   | .bool _ =>
     match kidsItemsC11 kids with
